@@ -275,5 +275,21 @@ def run_config(cfg):
                                      raised=out["raised"], generic=True))
             return
         post(eng, cfg, out, lambda m: pay(eng, m, cfg, out))
-    return common.explore(cfg, h2, twin=tw, on_leaf=on_leaf, deadline_s=cfg.get("deadline_s", 600),
+    def witness(eng, m, out):
+        if cfg["kind"] != "convert" or "raised" in out:
+            return None
+        p = convert_payload(eng, m, cfg, out)
+        # float32 storage: only witnesses whose feature values survive float32 are comparable bit for bit
+        import struct as _st
+        for row in p["feats"]:
+            for v in row:
+                if _st.unpack("<f", _st.pack("<f", v))[0] != v:
+                    return None
+        arr = out["loaded"]["txt"]
+        ev = lambda x: common.fraction_to_float(eng.eval_model(m, x))
+        p["expected"] = dict(txt=[[ev(x) for x in r] for r in arr.tolist()],
+                             accepted=[k for k in ("txt", "csv", "json") if out["parsed"][k][0] == "ok"])
+        return p
+    return common.explore(cfg, h2, twin=tw, on_leaf=on_leaf, witness_fn=witness, witness_stride=cfg.get("wstride", 3),
+                          deadline_s=cfg.get("deadline_s", 600),
                           seed=cfg.get("seed", 0), solver_timeout_ms=cfg.get("timeout_ms", 30000))
